@@ -111,6 +111,14 @@ class C04:
         return pool[c["cid"]]
 
     def _dist(self, circ, inp, backend, prev=None):
+        # a default-constructed Sampler whose default Source is tuned in place and which is thrown away: the next
+        # default-constructed Sampler must still have its own ideal source
+        try:
+            d0 = emulator.Sampler(circ, lw.State(list(inp)))
+            d0.source.brightness = 0.6
+            d0.source.purity = 0.9
+        except Exception:  # noqa: BLE001
+            pass
         if prev is not None:
             # reuse: the Sampler object first serves another configuration (same optics, different herald
             # photon numbers), is read, and is then re-pointed at the case's circuit - the distribution must
